@@ -654,6 +654,11 @@ def apply_event(S, ev, script=(), light=False, pre=None):
                 # wrapper.archive(obj): replace the cache's archive by a fresh, empty in-memory archive
                 import klepto.archives as ka
                 tr.ret = w.archive(ka.dict_archive('replacement', cached=False))
+            elif kind == 'newarchc':
+                # ... the same with a cache-fronted archive object (klepto.archives.X(name), cached=True is the default):
+                # the wrapper must attach the archive behind it
+                import klepto.archives as ka
+                tr.ret = w.archive(ka.dict_archive('replacement2', cached=True))
             elif kind == 'lookup':
                 a, k = tr.call
                 tr.ret = w.lookup(*a, **k)
@@ -950,9 +955,10 @@ def explore_dfs(cfg, events, make_monitors, prop, depth=4):
 def event_enabled(cfg, ev):
     b = cfg['backend']
     has_archive = b not in ('none', 'plaindict') and not b.startswith('direct:') and b != 'null'
-    if ev[0] in ('dump', 'load', 'dumpk', 'loadk', 'arch', 'newarch', 'dumpks', 'loadks', 'aclear') and not has_archive:
-        return False
-    if ev[0] == 'newarch' and b.split(':')[-1] in PERSISTENT:
+    if ev[0] in ('newarch', 'newarchc'):
+        # attaching an archive later is also possible (and interesting) for a wrapper decorated without one
+        return b in ('none', 'null', 'dict')
+    if ev[0] in ('dump', 'load', 'dumpk', 'loadk', 'arch', 'dumpks', 'loadks', 'aclear') and not has_archive:
         return False
     if ev[0] == 'redec' and (b in ('none', 'plaindict', 'null')):
         return False
